@@ -226,7 +226,9 @@ def shrink(blob, inner):
                 out += raw
         return out
     if inner:
-        return blob[:2] + b'', cut(inner)
+        # the compressed packet keeps its algorithm octet; its (huge) deflated data is cut down - TLC reads the structure inside from `inner`
+        top = build.read_packets(blob)
+        return build.pkt(8, bytes(top[0][1][:65])), cut(inner)
     return cut(blob), b''
 
 
